@@ -16,7 +16,7 @@ from concurrent.futures import ThreadPoolExecutor
 from vlib.core import hexs, hexlist, unhex, VERIF, CheckError
 from vlib.tr_life import tr_cfglife
 from vlib.syslevel import per_call, call_line, run_many
-from vlib.lifelib import build_both, run_life, phases, addr2line, gen_config, SINKS, ENVLINE, OPTION_NAMES
+from vlib.lifelib import build_both, run_life, phases, addr2line, gen_config, coq_query, SINKS, ENVLINE, OPTION_NAMES
 
 PHASES = ("at-exec", "after", "after-flush")
 
@@ -272,8 +272,15 @@ def check(run):
                            failing_input={"variant": v, "call_index": len(small) - 1,
                                           "history_configs": [unhex(s["ini"]).decode("latin-1") if s["ini"] != "~" else None for s in small]})
             run.violation(sig, kind, detail + " [%s]" % tag, rep)
+    if not ok:
+        diag = coq_query(run, "Diag_C11",
+                         "From Coq Require Import String List Bool.\nFrom Snoopy Require Import Lib.Skel Lib.ResFlow CfgLife.Model.\nFrom Gen Require Import Gen_CfgLife.\nOpen Scope string_scope.\n"
+                         "Eval vm_compute in (\"fields not defaulted\", filter (fun f => negb (str_in f (vf_assigned gen))) (g_fields gen), \"defaults pure\", vf_defaults_pure gen, \"dtor ends with setDefaults\", vf_dtor_defaults gen, "
+                         "\"get() defaults (ts, nts)\", vf_get_inits gen TS, vf_get_inits gen NTS, \"ctor re-reads the file\", vf_ctor_reparses gen, \"ts record fresh\", vf_ts_fresh gen, \"nts life\", vf_nts_life gen, "
+                         "\"writers\", vf_writers_ok gen, \"ownership closed and clean (ts, nts)\", own_ok gen TS, own_ok gen NTS).\n")
+        run.notes.append("diagnosis of the broken obligation: " + diag[:1500])
     if not ok and not run.violations:
-        run.violation("proof:%s" % failed, "proof", "proof obligation no longer checks: %s\n%s" % (failed, log[-1500:]), {"theorem": failed, "coq_log": log[-3000:]})
+        run.violation("proof:%s" % failed, "proof", "proof obligation no longer checks: %s\n%s\n%s" % (failed, diag[:1500], log[-800:]), {"theorem": failed, "diagnosis": diag[:3000], "coq_log": log[-3000:]})
     elif not ok:
         run.notes.append("proof obligation broken as well: %s" % failed)
     run.coverage.update({
